@@ -2211,6 +2211,15 @@ class ResetIndex(Elemwise):
                 # Avoid Projection since we are already a Series
                 subs = Projection(self, name)
                 predicate = parent.predicate.substitute(subs, self.frame)
+            if predicate is None:
+                predicate = parent.predicate.substitute(self, self.frame)
+            if {e._name for e in predicate.find_operations(ResetIndex)} - {
+                e._name for e in self.frame.find_operations(ResetIndex)
+            }:
+                # The predicate reads the reset rows through something other than
+                # self (e.g. a copy of self that a Projection was pushed into), so
+                # it carries the new index and doesn't line up with self.frame
+                return
             return self._filter_simplification(parent, predicate)
 
         if isinstance(parent, Projection):
